@@ -56,10 +56,13 @@ impl Synchronizer {
 
                             if !requests.contains_key(&parent){
                                 debug!("Requesting sync for block {}", parent);
+                                #[cfg(not(hotstuff_verif))]
                                 let now = SystemTime::now()
                                     .duration_since(UNIX_EPOCH)
                                     .expect("Failed to measure time")
                                     .as_millis();
+                                #[cfg(hotstuff_verif)]
+                                let now = network::simnet::now_millis();
                                 requests.insert(parent.clone(), now);
                                 let address = committee
                                     .address(&author)
@@ -84,10 +87,13 @@ impl Synchronizer {
                     () = &mut timer => {
                         // This implements the 'perfect point to point link' abstraction.
                         for (digest, timestamp) in &requests {
+                            #[cfg(not(hotstuff_verif))]
                             let now = SystemTime::now()
                                 .duration_since(UNIX_EPOCH)
                                 .expect("Failed to measure time")
                                 .as_millis();
+                            #[cfg(hotstuff_verif)]
+                            let now = network::simnet::now_millis();
                             if timestamp + (sync_retry_delay as u128) < now {
                                 debug!("Requesting sync for block {} (retry)", digest);
                                 let addresses = committee
